@@ -300,6 +300,13 @@ func (c *Ctx) Finish(writeEvidence bool) (int, *Result) {
 	}
 	sort.SliceStable(res.Violations, func(i, j int) bool { return res.Violations[i].Key < res.Violations[j].Key })
 	replayDir := filepath.Join(c.VerifDir, "evidence", "replay")
+	if !writeEvidence {
+		// mutant/overlay mode: the caller reports; stay quiet
+		if len(res.Violations) > 0 {
+			return 1, res
+		}
+		return 0, res
+	}
 	for _, o := range res.Known {
 		fmt.Printf("KNOWN-FINDING: property=%s %s [%s at %s]\n", c.Prop, isKnown[o.Key].What, o.Key, o.Pos)
 	}
